@@ -1,14 +1,349 @@
 import PbBss.Proofs.TensorProof
-/-! # C06 — leading (frequency/batch) axes are independent problems -/
+/-! # C06 — leading (frequency/batch) axes are independent problems
+
+Statements only (proofs: `PbBss/Proofs/TensorProof.lean`; model: `PbBss/Model/Tensor.lean`).
+
+A tensor is `⟨rshape, get⟩` with REVERSED shape and REVERSED multi-index (head = last NumPy axis).
+`fixLead t c lead` is the NumPy slice `t[lead]` that keeps the last `c` axes (`lead` reversed; a leading axis
+of size 1 is read at 0 — NumPy broadcasting).  "Leading axes are independent problems" is, for a
+function `f` of core rank `c`,
+
+    fixLead (f x) c' lead = f (fixLead x c lead)        for every leading index `lead`.
+
+Section 1 proves this for every primitive addressed from the END of the shape, section 2 for the
+tensor-layer transcriptions of pb_bss functions (which are compositions of those primitives, tied to
+`/repo` by the element-wise correspondence run of `harness/props/c06.py` on full stacked arrays),
+section 3 for singleton leading axes, section 4 gives the two counter-witnesses (non-negative axis,
+missing reshape-back).  Everything is structural: no property of the scalar type is used, so the
+statements hold verbatim for the `Float` instance the driver executes.
+
+The rank hypotheses (`c ≤ t.rank`) say that an operand really has the `c` core axes the function
+addresses (NumPy would raise otherwise); `ValidLead dims lead` says the leading index is in range on
+every non-singleton leading axis. -/
+set_option linter.unusedSectionVars false
 namespace PbBss.C06
 open PbBss PbBss.Tensor
 
 variable {α β γ : Type}
 
-/-- elementwise operations with NumPy broadcasting act slice by slice -/
+/-! ## 1. primitives addressed by negative axes -/
+
+/-- elementwise unary operations (and operations with a Python scalar) act slice by slice -/
+theorem map_slices (f : α → β) (t : T α) (c : Nat) (lead : List Nat) :
+    fixLead (map f t) c lead = map f (fixLead t c lead) := map_fixLead f t c lead
+
+/-- elementwise binary operations with NumPy broadcasting act slice by slice; an operand whose leading
+axes are singletons or missing is read as if it were repeated -/
 theorem zipWith_slices (f : α → β → γ) (a : T α) (b : T β) (c : Nat) (lead : List Nat)
     (ha : c ≤ a.rank) (hb : c ≤ b.rank) :
     fixLead (zipWith f a b) c lead = zipWith f (fixLead a c lead) (fixLead b c lead) :=
   zipWith_fixLead f a b c lead ha hb
+
+/-- `np.sum / np.mean / np.amax(…, axis=-(k+1), keepdims=True)` (any fold `r`), `k < c` -/
+theorem reduceKeep_slices (k : Nat) (r : Nat → (Nat → α) → β) (t : T α) (c : Nat) (lead : List Nat)
+    (hk : k < c) : fixLead (reduceKeep k r t) c lead = reduceKeep k r (fixLead t c lead) :=
+  reduceKeep_fixLead k r t c lead hk
+
+/-- `np.sum / np.mean / np.amax(…, axis=-(k+1))` and every `'...x->...'` einsum contraction: the core rank
+drops by one -/
+theorem reduceDrop_slices (k : Nat) (r : Nat → (Nat → α) → β) (t : T α) (c : Nat) (lead : List Nat)
+    (hk : k ≤ c) : fixLead (reduceDrop k r t) c lead = reduceDrop k r (fixLead t (c + 1) lead) :=
+  reduceDrop_fixLead k r t c lead hk
+
+section
+variable [Add α] [Mul α] [OfNat α 0] [OfNat α 1]
+/-- `np.cumprod(t, axis=-(k+1))`, `k < c` (the corrected `phase_correction` accumulation) -/
+theorem cumprodFromEnd_slices (k : Nat) (t : T α) (c : Nat) (lead : List Nat) (hk : k < c) :
+    fixLead (cumprodFromEnd k t) c lead = cumprodFromEnd k (fixLead t c lead) :=
+  scanAxis_fixLead k prodN t c lead hk
+
+/-- `np.cumsum(t, axis=-(k+1))`, `k < c` -/
+theorem cumsumFromEnd_slices (k : Nat) (t : T α) (c : Nat) (lead : List Nat) (hk : k < c) :
+    fixLead (cumsumFromEnd k t) c lead = cumsumFromEnd k (fixLead t c lead) :=
+  scanAxis_fixLead k sumN t c lead hk
+end
+
+/-- `t[..., None, :, …]` (e.g. the class axis `y[..., None, :, :]` of every mixture model) -/
+theorem expandDims_slices (k : Nat) (t : T α) (c : Nat) (lead : List Nat) (hk : k ≤ c) :
+    fixLead (expandDims k t) (c + 1) lead = expandDims k (fixLead t c lead) :=
+  expandDims_fixLead k t c lead hk
+
+/-- `np.swapaxes(t, -(i+1), -(j+1))` (e.g. `normalize_observation` of the cACG) -/
+theorem swapaxes_slices (i j : Nat) (t : T α) (c : Nat) (lead : List Nat) (hi : i < c) (hj : j < c) :
+    fixLead (swapaxes i j t) c lead = swapaxes i j (fixLead t c lead) :=
+  swapaxes_fixLead i j t c lead hi hj
+
+/-- the `reshape(-1, *core)` → operation on the last axes → reshape-back pair (`__post_init__` of the
+Gaussians, `get_pca`) acts slice by slice -/
+theorem reshape_pair_slices (op : T α → T β) (c c' : Nat) (t : T α) (lead : List Nat)
+    (hop : ∀ u l, fixLead (op u) c' l = op (fixLead u c l))
+    (hshape : (op (flattenLead c t)).rshape.drop c' = (flattenLead c t).rshape.drop c)
+    (hc : c ≤ t.rank) (hc' : c' ≤ (op (flattenLead c t)).rank)
+    (hv : ValidLead (t.rshape.drop c) lead) :
+    fixLead (unflattenLead c' (t.rshape.drop c) (op (flattenLead c t))) c' lead = op (fixLead t c lead) :=
+  reshape_pair op c c' t lead hop hshape hc hc' hv
+
+/-! ## 2. transcriptions of pb_bss functions -/
+
+section transcriptions
+variable [Add α] [Sub α] [Mul α] [Div α] [Neg α] [OfNat α 0] [OfNat α 1] [NatCast α] [Max α]
+  [LT α] [DecidableLT α] [BEq α] [Transc α]
+
+/-- `log_pdf_to_affiliation` (shared posterior routine; weights of any broadcast-compatible shape, optional
+source-activity mask and clipping): the posterior of a stack at a leading index is the posterior of that
+slice computed alone -/
+theorem posterior_slices (tiny : α) (w lp : T α) (mask : Option (T α)) (clip : Option α) (lead : List Nat)
+    (hw : 2 ≤ w.rank) (hlp : 2 ≤ lp.rank) (hm : ∀ m, mask = some m → 2 ≤ m.rank) :
+    fixLead (logPdfToAffiliation tiny w lp mask clip) 2 lead =
+      logPdfToAffiliation tiny (fixLead w 2 lead) (fixLead lp 2 lead) (mask.map (fixLead · 2 lead)) clip :=
+  logPdfToAffiliation_fixLead tiny w lp mask clip lead hw hlp hm
+
+/-- `estimate_mixture_weight(…, weight_constant_axis=(-1,))`: mixture weights are tied only within a slice -/
+theorem mixtureWeight_slices (eps : α) (aff : T α) (sal : Option (T α)) (lead : List Nat) (ha : 2 ≤ aff.rank) :
+    fixLead (estimateMixtureWeight eps aff sal) 2 lead =
+      estimateMixtureWeight eps (fixLead aff 2 lead) (sal.map (fixLead · 1 lead)) :=
+  estimateMixtureWeight_fixLead eps aff sal lead ha
+
+/-- `GaussianTrainer._fit` (all three covariance types, with and without saliency): mean and covariance of
+the stacked fit at a leading index are those of the slice fitted alone -/
+theorem gaussianFit_slices (tiny : α) (ct : CovType) (y : T α) (sal : Option (T α)) (lead : List Nat)
+    (hy : 2 ≤ y.rank) (hs : ∀ s, sal = some s → 1 ≤ s.rank) :
+    fixLead (gaussianFit tiny ct y sal).1 1 lead =
+        (gaussianFit tiny ct (fixLead y 2 lead) (sal.map (fixLead · 1 lead))).1 ∧
+    fixLead (gaussianFit tiny ct y sal).2 (covRank ct) lead =
+        (gaussianFit tiny ct (fixLead y 2 lead) (sal.map (fixLead · 1 lead))).2 :=
+  ⟨gaussianFit_mean_fixLead tiny ct y sal lead hy hs, gaussianFit_cov_fixLead tiny ct y sal lead hy hs⟩
+
+/-- `Gaussian.log_pdf` (einsums `'...Dd,...nD->...nd'`, `'...nd,...nd->...n'`) -/
+theorem gaussianLogPdf_slices (log2pi : α) (mean pc logDet y : T α) (lead : List Nat)
+    (hm : 1 ≤ mean.rank) (hp : 2 ≤ pc.rank) (hy : 2 ≤ y.rank) :
+    fixLead (gaussianLogPdf log2pi mean pc logDet y) 1 lead =
+      gaussianLogPdf log2pi (fixLead mean 1 lead) (fixLead pc 2 lead) (fixLead logDet 0 lead) (fixLead y 2 lead) :=
+  gaussianLogPdf_fixLead log2pi mean pc logDet y lead hm hp hy
+
+/-- `DiagonalGaussian.log_pdf` (einsum `'...d,...nd->...nd'`, the subscripts of commit d40e2c0) -/
+theorem diagonalGaussianLogPdf_slices (log2pi : α) (mean pc logDet y : T α) (lead : List Nat)
+    (hm : 1 ≤ mean.rank) (hp : 1 ≤ pc.rank) (hy : 2 ≤ y.rank) :
+    fixLead (diagonalGaussianLogPdf log2pi mean pc logDet y) 1 lead =
+      diagonalGaussianLogPdf log2pi (fixLead mean 1 lead) (fixLead pc 1 lead) (fixLead logDet 0 lead)
+        (fixLead y 2 lead) :=
+  diagonalGaussianLogPdf_fixLead log2pi mean pc logDet y lead hm hp hy
+
+/-- `SphericalGaussian.log_pdf` (einsum `'...,...nd->...nd'`) -/
+theorem sphericalGaussianLogPdf_slices (log2pi : α) (mean pc logDet y : T α) (lead : List Nat)
+    (hm : 1 ≤ mean.rank) (hy : 2 ≤ y.rank) :
+    fixLead (sphericalGaussianLogPdf log2pi mean pc logDet y) 1 lead =
+      sphericalGaussianLogPdf log2pi (fixLead mean 1 lead) (fixLead pc 0 lead) (fixLead logDet 0 lead)
+        (fixLead y 2 lead) :=
+  sphericalGaussianLogPdf_fixLead log2pi mean pc logDet y lead hm hy
+
+/-- `DiagonalGaussian.__post_init__` with its reshapes (commit eb73118): both derived fields of the stack,
+read at a valid leading index, are what the one-model computation gives for that slice -/
+theorem diagonalPostInit_slices (cov : T α) (lead : List Nat) (hc : 1 ≤ cov.rank)
+    (hv : ValidLead (cov.rshape.drop 1) lead) :
+    fixLead (diagonalPostInit cov).1 1 lead = (diagonalPostInitCore (fixLead cov 1 lead)).1 ∧
+    fixLead (diagonalPostInit cov).2 0 lead = (diagonalPostInitCore (fixLead cov 1 lead)).2 :=
+  diagonalPostInit_fixLead cov lead hc hv
+
+/-- the same against the stand-alone object: `DiagonalGaussian(mean[lead], covariance[lead])` runs the same
+reshapes with no leading axis and gets exactly the slice of the stacked fields -/
+theorem diagonalPostInit_standalone (cov : T α) (lead : List Nat) (hc : 1 ≤ cov.rank)
+    (hv : ValidLead (cov.rshape.drop 1) lead) :
+    fixLead (diagonalPostInit cov).1 1 lead = (diagonalPostInit (fixLead cov 1 lead)).1 ∧
+    fixLead (diagonalPostInit cov).2 0 lead = (diagonalPostInit (fixLead cov 1 lead)).2 :=
+  Tensor.diagonalPostInit_standalone cov lead hc hv
+
+/-- `SphericalGaussian.__post_init__` with its reshapes -/
+theorem sphericalPostInit_slices (dim : Nat) (cov : T α) (lead : List Nat) (hv : ValidLead cov.rshape lead) :
+    fixLead (sphericalPostInit dim cov).1 0 lead = (sphericalPostInitCore dim (fixLead cov 0 lead)).1 ∧
+    fixLead (sphericalPostInit dim cov).2 0 lead = (sphericalPostInitCore dim (fixLead cov 0 lead)).2 :=
+  sphericalPostInit_fixLead dim cov lead hv
+
+theorem sphericalPostInit_standalone (dim : Nat) (cov : T α) (lead : List Nat) (hv : ValidLead cov.rshape lead) :
+    fixLead (sphericalPostInit dim cov).1 0 lead = (sphericalPostInit dim (fixLead cov 0 lead)).1 ∧
+    fixLead (sphericalPostInit dim cov).2 0 lead = (sphericalPostInit dim (fixLead cov 0 lead)).2 :=
+  Tensor.sphericalPostInit_standalone dim cov lead hv
+
+/-- `Gaussian.__post_init__`: `reshape(-1, D, D)`, the per-matrix external `chol` (contract: sklearn's
+`_compute_precision_cholesky(·, 'full')` treats the matrices of the flat stack one by one), reshape back,
+log-determinant from the diagonal -/
+theorem fullPostInit_slices (chol : T α → T α) (cov : T α) (lead : List Nat) (hc : 2 ≤ cov.rank)
+    (hv : ValidLead (cov.rshape.drop 2) lead) :
+    fixLead (fullPostInit chol cov).1 2 lead = (fullPostInitCore chol (fixLead cov 2 lead)).1 ∧
+    fixLead (fullPostInit chol cov).2 0 lead = (fullPostInitCore chol (fixLead cov 2 lead)).2 :=
+  fullPostInit_fixLead chol cov lead hc hv
+
+/-- `VonMisesFisherTrainer._fit`: mean direction and concentration -/
+theorem vmfFit_slices (tiny minC maxC : α) (y : T α) (sal : Option (T α)) (lead : List Nat)
+    (hy : 2 ≤ y.rank) (hs : ∀ s, sal = some s → 1 ≤ s.rank) :
+    fixLead (vmfFit tiny minC maxC y sal).1 1 lead =
+        (vmfFit tiny minC maxC (fixLead y 2 lead) (sal.map (fixLead · 1 lead))).1 ∧
+    fixLead (vmfFit tiny minC maxC y sal).2 0 lead =
+        (vmfFit tiny minC maxC (fixLead y 2 lead) (sal.map (fixLead · 1 lead))).2 :=
+  vmfFit_fixLead tiny minC maxC y sal lead hy hs
+
+/-- `VonMisesFisher.log_pdf` (the values of `log_norm()`, computed elementwise with `scipy.special.ive`, are
+an input of core rank 0) -/
+theorem vmfLogPdf_slices (tiny : α) (mean conc logNorm y : T α) (lead : List Nat)
+    (hm : 1 ≤ mean.rank) (hy : 2 ≤ y.rank) :
+    fixLead (vmfLogPdf tiny mean conc logNorm y) 1 lead =
+      vmfLogPdf tiny (fixLead mean 1 lead) (fixLead conc 0 lead) (fixLead logNorm 0 lead) (fixLead y 2 lead) :=
+  vmfLogPdf_fixLead tiny mean conc logNorm y lead hm hy
+
+theorem fullPostInit_standalone (chol : T α → T α) (cov : T α) (lead : List Nat) (hc : 2 ≤ cov.rank)
+    (hv : ValidLead (cov.rshape.drop 2) lead) :
+    fixLead (fullPostInit chol cov).1 2 lead = (fullPostInit chol (fixLead cov 2 lead)).1 ∧
+    fixLead (fullPostInit chol cov).2 0 lead = (fullPostInit chol (fixLead cov 2 lead)).2 :=
+  Tensor.fullPostInit_standalone chol cov lead hc hv
+
+end transcriptions
+
+section complex
+variable {κ : Type} [Add α] [Sub α] [Mul α] [Div α] [Neg α] [OfNat α 0] [OfNat α 1] [NatCast α] [Max α]
+  [LT α] [DecidableLT α] [BEq α] [Transc α]
+  [Add κ] [Sub κ] [Mul κ] [Div κ] [OfNat κ 0] [OfNat κ 1] [CxOps α κ]
+
+/-- the scatter matrix of `ComplexCircularSymmetricGaussianTrainer._fit` (`floorDen = some tiny`; this is the
+whole trainer), `ComplexWatsonTrainer._fit` and `ComplexBinghamTrainer._fit` (`floorDen = none`; the part
+before the per-matrix external `eigh`) -/
+theorem scatter_slices (floorDen : Option α) (y : T κ) (sal : Option (T α)) (lead : List Nat)
+    (hy : 2 ≤ y.rank) (hs : ∀ s, sal = some s → 1 ≤ s.rank) :
+    fixLead (scatter floorDen y sal) 2 lead = scatter floorDen (fixLead y 2 lead) (sal.map (fixLead · 1 lead)) :=
+  scatter_fixLead floorDen y sal lead hy hs
+
+/-- `ComplexWatson.log_pdf` (values of `log_norm()` — elementwise `hyp1f1` — are an input) -/
+theorem watsonLogPdf_slices (mode : T κ) (conc logNorm : T α) (y : T κ) (lead : List Nat)
+    (hm : 1 ≤ mode.rank) (hy : 2 ≤ y.rank) :
+    fixLead (watsonLogPdf mode conc logNorm y) 1 lead =
+      watsonLogPdf (fixLead mode 1 lead) (fixLead conc 0 lead) (fixLead logNorm 0 lead) (fixLead y 2 lead) :=
+  watsonLogPdf_fixLead mode conc logNorm y lead hm hy
+
+/-- `ComplexBingham.log_pdf` including the `covariance` property (values of `log_norm()` are an input) -/
+theorem binghamLogPdf_slices (vecs : T κ) (vals logNorm : T α) (y : T κ) (lead : List Nat)
+    (hv : 2 ≤ vecs.rank) (hl : 1 ≤ vals.rank) (hy : 2 ≤ y.rank) :
+    fixLead (binghamLogPdf vecs vals logNorm y) 1 lead =
+      binghamLogPdf (fixLead vecs 2 lead) (fixLead vals 1 lead) (fixLead logNorm 0 lead) (fixLead y 2 lead) :=
+  binghamLogPdf_fixLead vecs vals logNorm y lead hv hl hy
+
+/-- cACG `normalize_observation` (unit norm over the last axis, then `swapaxes(-2, -1)`) -/
+theorem cacgNormalize_slices (tiny : α) (y : T κ) (lead : List Nat) (hy : 2 ≤ y.rank) :
+    fixLead (cacgNormalize tiny y) 2 lead = cacgNormalize tiny (fixLead y 2 lead) :=
+  cacgNormalize_fixLead tiny y lead hy
+
+/-- the start value `np.ones((*independent, N))` of `ComplexAngularCentralGaussianTrainer.fit` (commit cf5e8f1)
+has the leading shape of the observation: each slice starts from `np.ones(N)` -/
+theorem cacgStart_slices (y : T κ) (lead : List Nat) :
+    fixLead (cacgStartQuadraticForm (α := α) y) 1 lead = cacgStartQuadraticForm (fixLead y 2 lead) :=
+  cacgStartQuadraticForm_fixLead y lead
+
+/-- `ComplexAngularCentralGaussianTrainer._fit` up to the per-matrix external `eigh`: the (hermitised)
+covariance handed to `from_covariance` -/
+theorem cacgFitCovariance_slices (tiny : α) (herm : Bool) (y : T κ) (sal : Option (T α)) (q : T α) (lead : List Nat)
+    (hy : 2 ≤ y.rank) (hq : 1 ≤ q.rank) (hs : ∀ s, sal = some s → 1 ≤ s.rank) :
+    fixLead (cacgFitCovariance tiny herm y sal q) 2 lead =
+      cacgFitCovariance tiny herm (fixLead y 2 lead) (sal.map (fixLead · 1 lead)) (fixLead q 1 lead) :=
+  cacgFitCovariance_fixLead tiny herm y sal q lead hy hq hs
+
+/-- eigenvalue normalisation and flooring of `from_covariance(covariance_norm='eigenvalue')` -/
+theorem cacgEigenvalueNorm_slices (tiny floor : α) (vals : T α) (lead : List Nat) (hl : 1 ≤ vals.rank) :
+    fixLead (cacgEigenvalueNorm tiny floor vals) 1 lead = cacgEigenvalueNorm tiny floor (fixLead vals 1 lead) :=
+  cacgEigenvalueNorm_fixLead tiny floor vals lead hl
+
+/-- `ComplexAngularCentralGaussian._log_pdf`: log-density and quadratic form
+(einsum `'...dt,...de,...e,...ge,...gt->...t'`) -/
+theorem cacgLogPdf_slices (tiny : α) (vecs : T κ) (vals : T α) (y : T κ) (lead : List Nat)
+    (hv : 2 ≤ vecs.rank) (hl : 1 ≤ vals.rank) (hy : 2 ≤ y.rank) :
+    fixLead (cacgLogPdf tiny vecs vals y).1 1 lead =
+        (cacgLogPdf tiny (fixLead vecs 2 lead) (fixLead vals 1 lead) (fixLead y 2 lead)).1 ∧
+    fixLead (cacgLogPdf tiny vecs vals y).2 1 lead =
+        (cacgLogPdf tiny (fixLead vecs 2 lead) (fixLead vals 1 lead) (fixLead y 2 lead)).2 :=
+  cacgLogPdf_fixLead tiny vecs vals y lead hv hl hy
+
+end complex
+
+/-! ## 3. singleton leading axes behave as if repeated -/
+
+/-- `np.broadcast_to(initialization, (*independent, K, N))` (`cacgmm.py:228`): every slice of the broadcast
+affiliation is the slice of the original read with its singleton axes at 0 — i.e. the original repeated -/
+theorem broadcastLead_slices (t : T α) (c : Nat) (s lead : List Nat) (hc : c ≤ t.rank)
+    (hlen : (t.rshape.drop c).length ≤ s.length)
+    (hcompat : ∀ i, i < (t.rshape.drop c).length → (t.rshape.drop c).getD i 1 ≠ 1 → s.getD i 1 ≠ 1) :
+    fixLead (broadcastLead c s t) c lead = fixLead t c lead :=
+  broadcastLead_fixLead t c s lead hc hlen hcompat
+
+section
+variable [Add α] [Sub α] [Mul α] [Div α] [Neg α] [OfNat α 0] [OfNat α 1] [NatCast α] [Max α]
+  [LT α] [DecidableLT α] [BEq α] [Transc α]
+/-- first M-step of a mixture trainer started from an initial affiliation `γ₀` with singleton leading axes:
+the weights at every leading index are the weights of `γ₀` (repeated) — with or without the explicit
+`broadcast_to` -/
+theorem singleton_init_weights (eps : α) (g0 : T α) (s lead : List Nat) (h2 : 2 ≤ g0.rank)
+    (hlen : (g0.rshape.drop 2).length ≤ s.length)
+    (hcompat : ∀ i, i < (g0.rshape.drop 2).length → (g0.rshape.drop 2).getD i 1 ≠ 1 → s.getD i 1 ≠ 1) :
+    fixLead (estimateMixtureWeight eps (broadcastLead 2 s g0) none) 2 lead =
+      estimateMixtureWeight eps (fixLead g0 2 lead) none ∧
+    fixLead (estimateMixtureWeight eps g0 none) 2 lead = estimateMixtureWeight eps (fixLead g0 2 lead) none := by
+  have hb : 2 ≤ (broadcastLead 2 s g0).rank := by
+    simp only [T.rank, broadcastLead, List.length_append, List.length_take]
+    have : 2 ≤ g0.rshape.length := h2
+    omega
+  constructor
+  · rw [estimateMixtureWeight_fixLead eps _ none lead hb, broadcastLead_fixLead g0 2 s lead h2 hlen hcompat]; rfl
+  · rw [estimateMixtureWeight_fixLead eps _ none lead h2]; rfl
+end
+
+/-! ## 4. counter-witnesses: what does NOT commute -/
+
+/-- the 2×2 stack `[[1, 2], [3, 4]]` -/
+def w22 : T Nat := ⟨[2, 2], fun idx => idx.getD 0 0 + 2 * idx.getD 1 0 + 1⟩
+
+/-- An operation addressed with a NON-negative axis is not slice-wise: `np.cumprod(t, axis=0)` (the
+`phase_correction` defect, commit e74d97d) on the stack `[[1,2],[3,4]]` gives `[3, 8]` in row 1, the row
+alone gives `[3, 12]`. -/
+theorem cumprod_axis0_not_slicewise :
+    ∃ (t : T Nat) (lead : List Nat), fixLead (cumprodFromStart 0 t) 1 lead ≠ cumprodFromStart 0 (fixLead t 1 lead) := by
+  refine ⟨w22, [1], fun h => ?_⟩
+  have h1 := congrArg (fun x => x.get [1]) h
+  revert h1
+  decide
+
+/-- the same operation addressed from the end IS slice-wise on this stack (instance of
+`cumprodFromEnd_slices`, evaluated) -/
+example : (fixLead (cumprodFromEnd 0 w22) 1 [1]).get [1] = 12 ∧ (cumprodFromEnd 0 (fixLead w22 1 [1])).get [1] = 12 := by
+  decide
+
+section
+variable [Add α] [Mul α] [Div α] [OfNat α 0] [OfNat α 1] [NatCast α] [Transc α]
+/-- Without the reshape-back of the log-determinant (the code before commit eb73118) a stack with leading
+shape `(2, 3)` gets a flat field of shape `(6,)` instead of `(2, 3)`: it cannot be indexed by the leading
+axes any more (broadcast error / wrong values in `log_pdf`). -/
+theorem postInit_without_reshape_back_wrong_shape (cov : T α) (D : Nat) (h : cov.rshape = [D, 3, 2]) :
+    (diagonalPostInitNoReshape cov).2.rshape = [6] ∧ (diagonalPostInit cov).2.rshape = [3, 2] := by
+  simp [diagonalPostInitNoReshape, diagonalPostInit, unflattenLead, sumAxis, reduceDrop, map, flattenLead, h, eraseAt,
+    padTake, prodList]
+end
+
+/-! ## non-vacuity: the hypotheses are satisfiable and the statements speak about real slices -/
+
+/-- a stack with two leading axes `(2, 3)` and core `(2,)`, different content everywhere -/
+def w232 : T Nat := ⟨[2, 3, 2], fun idx => idx.getD 0 0 + 10 * idx.getD 1 0 + 100 * idx.getD 2 0⟩
+
+example : ValidLead (w232.rshape.drop 1) [2, 1] := by
+  intro i hi _
+  have : i = 0 ∨ i = 1 := by simp [w232] at hi; omega
+  rcases this with rfl | rfl <;> simp [w232]
+
+/-- `fixLead` is the NumPy slice: `w232[1, 2]` = `[120, 121]`; summing the last axis of the stack and then
+slicing equals slicing and then summing (instance of `reduceDrop_slices`, evaluated) -/
+example : (fixLead w232 1 [2, 1]).get [1] = 121 ∧
+    (fixLead (sumAxis 0 w232) 0 [2, 1]).get [] = 241 ∧ (sumAxis 0 (fixLead w232 1 [2, 1])).get [] = 241 := by
+  decide
+
+/-- a `(1, 3, 2)` operand is read as if repeated along its singleton leading axis (instance of `zipWith_slices`) -/
+example :
+    let b : T Nat := ⟨[2, 3, 1], fun idx => 1000 * (idx.getD 1 0 + 1)⟩
+    (fixLead (zipWith (· + ·) w232 b) 1 [2, 1]).get [0] = 3120 ∧
+    (zipWith (· + ·) (fixLead w232 1 [2, 1]) (fixLead b 1 [2, 1])).get [0] = 3120 := by
+  decide
 
 end PbBss.C06
